@@ -110,19 +110,33 @@ func (m *Modifier) ModifyResponse(res *http.Response) error {
 	// Reset the Content-Encoding since we know that the new body isn't encoded.
 	res.Header.Del("Content-Encoding")
 
-	// If no range request header is present, return the body as the response body.
-	if res.Request.Header.Get("Range") == "" {
+	// If no range request header is present, or its unit is not bytes (RFC 7233
+	// says to ignore range units that are not understood), return the body as
+	// the response body.
+	rh := strings.ToLower(res.Request.Header.Get("Range"))
+	if !strings.HasPrefix(rh, "bytes=") {
 		res.ContentLength = int64(len(m.body))
 		res.Body = ioutil.NopCloser(bytes.NewReader(m.body))
 
 		return nil
 	}
 
-	rh := res.Request.Header.Get("Range")
-	rh = strings.ToLower(rh)
-	sranges := strings.Split(strings.TrimLeft(rh, "bytes="), ",")
+	sranges := strings.Split(strings.TrimPrefix(rh, "bytes="), ",")
 	var ranges [][]int
 	for _, rng := range sranges {
+		rng = strings.TrimSpace(rng)
+		if strings.HasPrefix(rng, "-") {
+			// Suffix range: the last n bytes.
+			n, err := strconv.Atoi(strings.TrimSpace(rng[1:]))
+			if err != nil || n <= 0 {
+				res.StatusCode = http.StatusRequestedRangeNotSatisfiable
+				return nil
+			}
+			if n > len(m.body) {
+				n = len(m.body)
+			}
+			rng = fmt.Sprintf("%d-%d", len(m.body)-n, len(m.body)-1)
+		}
 		if strings.HasSuffix(rng, "-") {
 			rng = fmt.Sprintf("%s%d", rng, len(m.body)-1)
 		}
@@ -132,14 +146,17 @@ func (m *Modifier) ModifyResponse(res *http.Response) error {
 			res.StatusCode = http.StatusRequestedRangeNotSatisfiable
 			return nil
 		}
+		// A position that is not a number makes the range set invalid.
 		start, err := strconv.Atoi(strings.TrimSpace(rs[0]))
 		if err != nil {
-			return err
+			res.StatusCode = http.StatusRequestedRangeNotSatisfiable
+			return nil
 		}
 
 		end, err := strconv.Atoi(strings.TrimSpace(rs[1]))
 		if err != nil {
-			return err
+			res.StatusCode = http.StatusRequestedRangeNotSatisfiable
+			return nil
 		}
 
 		if start > end || start < 0 || start >= len(m.body) {
